@@ -17,6 +17,7 @@ structure Inp where
   bTick : Bool := false
   z : Option Int := none
   zTick : Bool := false
+  zMod : Bool := false          -- the broadcast is modified for this child: it ticked, or the child starts in this cycle
 
 structure CS where
   acc : Int := 0
@@ -35,7 +36,8 @@ def behOf (fn : String) (ndx : Bool) : Beh Nat CS Inp Int Int where
   init := fun _ _ _ => {}
   -- `schedule_sampled_input_consumers`: a consumer of a valid sampled input (the index source is always valid)
   startNext := fun _ now i =>
-    if ndx || i.a.isSome || (fn == "addb" && i.z.isSome) || (fn == "pair" && i.b.isSome) then now else MAX_DT
+    if ndx || i.a.isSome || ((fn == "addb" || fn == "bmod") && i.z.isSome) || (fn == "pair" && i.b.isSome) then now
+    else MAX_DT
   restart := fun _ _ _ s => s
   step := fun k now i s =>
     match fn with
@@ -62,6 +64,10 @@ def behOf (fn : String) (ndx : Bool) : Beh Nat CS Inp Int Int where
       | _, _ => { st := s }
     | "addb" => match i.a, i.z with
       | some v, some z => if i.aTick || i.zTick then { st := s, out := some (v + z) } else { st := s }
+      | _, _ => { st := s }
+    | "bmod" => match i.a, i.z with
+      -- emits only while the broadcast is modified for THIS child (`zMod`: a tick, or sampled at the child's start)
+      | some v, some z => if i.zMod then { st := s, out := some (v + z) } else { st := s }
       | _, _ => { st := s }
     | "pair" => match i.a, i.b with
       | some l, some r => if i.aTick || i.bTick then { st := s, out := some (l + 1000 * r) } else { st := s }
@@ -117,7 +123,7 @@ def cycleStep (d : DS) (ops : List Op) : DS × String :=
   if d.dead then (d, "err:exception") else
   let cfg := d.cfg
   let two := cfg.fn == "pair"
-  let bc := cfg.fn == "addb"
+  let bc := cfg.fn == "addb" || cfg.fn == "bmod"
   let now := d.cycle + 1
   let aSets := ops.filterMap fun o => match o with | .set i v => some (i, v) | _ => none
   let bSets := if two then ops.filterMap fun o => match o with | .bset i v => some (i, v) | _ => none else []
@@ -136,7 +142,7 @@ def cycleStep (d : DS) (ops : List Op) : DS × String :=
     (aT i && decide (d.a.length ≤ i)) || (bT i && decide (d.b.length ≤ i))
   let input : Nat → Inp := fun i =>
     { a := (a1[i]?).join, aTick := aT i, b := if two then (b1[i]?).join else none, bTick := bT i,
-      z := if bc then z else none, zTick := zTick }
+      z := if bc then z else none, zTick := zTick, zMod := zTick || (bc && decide (live0 ≤ i) && z.isSome) }
   let I : CycleIn Inp :=
     { now := now, sizes := if two then [a1.length, b1.length] else [a1.length]
       inputTick := !aSets.isEmpty || !bSets.isEmpty || zTick
@@ -158,7 +164,7 @@ def cycleStep (d : DS) (ops : List Op) : DS × String :=
   ({ d with m := r.m, a := a1, b := b1, z := z, outValid := outValid, cycle := d.cycle + 1 }, line)
 
 def fnKnown (f : String) : Bool :=
-  ["inc", "acc", "addidx", "echo1", "echo2", "echo3", "echov", "even", "neg", "addb", "pair"].contains f
+  ["inc", "acc", "addidx", "echo1", "echo2", "echo3", "echov", "even", "neg", "addb", "bmod", "pair"].contains f
 
 def reset (d : DS) : DS := { cfg := d.cfg, bad := d.bad }
 
